@@ -68,6 +68,8 @@ def check(case):
                                     ("molar", "weight", "to_weight", "to_molar", to_weight)):
         c = call(build.composition, p, frm)
         require(not is_raised(c), "Composition(p=%r) in [0,1] was rejected: %r", p, c)
+        # the same object is first converted for a mixture with other molar masses: results must not stick to the object
+        call(getattr(c, fwd), _mixture({"m1": 3.0 * m2, "m2": 0.5 * m1}))
         conv = call(getattr(c, fwd), mix)
         require(not is_raised(conv), "%s of p=%r raised %r", fwd, p, conv)
         require(conv.type == to, "%s returned type %r", fwd, conv.type)
